@@ -21,7 +21,7 @@ def run(ctx):
         "Conn operations: as C11 (list-offsets and ApiVersions are covered by correspondence only)",
         "fetch: a response at the high watermark carries an empty set; message-set reader conserves bytes and does not panic (observed, not proved)",
         "protocol.ReadResponse: ok only after discardAll left remain = 0 (contract, sampled on every registered API/version)",
-        "'blocks beyond its deadline' is observed with watchdogs (2-5 s deadlines, 3-30 s watchdogs; each scenario family stops after ~5 blocked cases), not proved; the lock-release facts that rule out blocking on rlock are proved in Props/C11 over regenerated facts",
+        "'blocks beyond its deadline' is observed with watchdogs (2-5 s deadlines, 3-30 s watchdogs; each scenario family stops after ~5 blocked cases), also against a broker that goes SILENT after k bytes instead of dropping the connection (c17s: every Conn operation, 300 ms deadline, 2 positions per op-version quick / 6 thorough; tp …/stall: the Client scenarios with a 400 ms timeout), not proved (the model has no time: a stalled stream is a stream that ends); the lock-release facts that rule out blocking on rlock are proved in Props/C11 over regenerated facts",
         "split requests: the expected merged result is computed by the C19 builder's model (Model/ListOffsets.lean; Props/C19 entries_exact, failure_isolated)",
         "Transport LTS: events are the existing verifEvent(\"T.*\") hook points of transport.go; Grab/Release/Remove are recorded under connGroup.mutex, Recv/Done/Exit on the connection's goroutine",
         "Transport keeps a failed INITIAL metadata state until its next refresh (MetadataTTL, 40 ms in the driver): follow-up calls are retried for up to 3 s",
